@@ -47,6 +47,16 @@ pub fn main(ctx: &Ctx) -> ! {
                 json!({"message": lj["message"], "bound": lj["bound"], "how": "loomjob --scenario <acts> replays the exploration of this scenario"}),
             );
         },
+        // killed by a signal (abort after a double panic): the panic hook has recorded the first panic and
+        // the scenario; a panic raised by loom or by the harness monitors inside a scenario is a finding
+        None if lj["failed_scenario"].is_string() && lj["machinery"] == json!(false) && !lj["failed_scenario"].as_str().unwrap().is_empty() => {
+            let sc = lj["failed_scenario"].as_str().unwrap().to_string();
+            ctx.violation(
+                "loom",
+                &format!("loom:{sc}"),
+                json!({"message": lj["message"], "note": "the loom process aborted after this first panic (second panic while unwinding)", "how": "loomjob --scenario <acts> replays the exploration of this scenario"}),
+            );
+        },
         c => {
             eprintln!("{}", String::from_utf8_lossy(&o.stdout));
             eprintln!("{}", String::from_utf8_lossy(&o.stderr));
